@@ -1566,7 +1566,14 @@ func runC20(tier string, seed uint64, o *Out) error {
 	phase("P registry")
 	// (8) the same expression text over differently typed rows at every site that reaches the expression
 	//     bridge, every solo run in a fresh process (c20c.go)
-	err := c20RunTypedBridgeFamily(rng, tier, o)
+	if err := c20RunTypedBridgeFamily(rng, tier, o); err != nil {
+		return err
+	}
 	phase("P typed bridge")
+	// (9) sink-row stability on the window result pipeline: HAVING over unselected aggregates, ORDER BY,
+	//     LIMIT, DISTINCT, post-aggregation expressions; every delivered batch is encoded at delivery,
+	//     when the next batch arrives and after Stop (c20d.go)
+	err := c20RunStableFamily(rng, tier, o)
+	phase("S sink-row stability")
 	return err
 }
